@@ -241,9 +241,11 @@ def prove_eq_mod(so3, goal_pairs, timeout=120, conv=None):
             d = sp.together(conv.tr(l) - conv.tr(r))
             num = sp.fraction(d)[0]
             rem = so3.reduce_poly(num)
-            if conv.relations:
-                G2 = sp.groebner(list(so3.G.exprs) + list(conv.relations), order='grevlex')
-                _, rem = G2.reduce(sp.expand(num))
+            if conv.relations and rem != 0:
+                polys = list(so3.G.exprs) + [sp.expand(r_) for r_ in conv.relations]
+                gens = sorted(set().union(*[p_.free_symbols for p_ in polys]) | sp.expand(rem).free_symbols, key=lambda s_: s_.name)
+                G2 = sp.groebner(polys, *gens, order='grevlex')
+                _, rem = G2.reduce(sp.expand(rem))
             if rem != 0:
                 return 'unknown', 'remainder %s' % str(rem)[:300], time.time() - t0
         return 'proved', 'zero modulo the SO(3) ideal (%d opaque applications identified by normal form)' % len(conv.opaque), time.time() - t0
